@@ -360,3 +360,38 @@ package cache
 //@   assert at call middleware/cache.entryMatchesWireQuestion#1: arg0 == next && arg1 == target && arg2 == qtype && arg3 == qclass && arg4 == cd
 //@   assert at call (*middleware/cache.Cache).checkCache#1: arg1 == lastret("internal/cache.KeyWire") && lastret("internal/cache.KeyWire", 1)
 //@   assert at call internal/cache.KeyWire#1: arg0 == target && arg1 == qtype && arg2 == qclass && arg3 == cd
+//@
+//@ # ---- C13 / C03: the wire-path failure lookup. An exact hit is served only for a question-kind entry of the shared
+//@ # (unscoped) audience whose type, class and CD equal the probe's, whose stored name is the escaped presentation of
+//@ # the wire name, and whose back-off has not elapsed; a zone hit only for a zone-kind entry of the same class whose
+//@ # zone name matches the wire suffix and whose back-off has not elapsed
+//@ func (*FailureCache).LookupWire
+//@   abstract
+//@   nosafety all pre
+//@   assert at return#2: result1 && lastret("internal/cache.KeyWire", 1) && lastret("(*middleware/cache.FailureCache).loadEntry", 1) && lastret("internal/cache.WireNameEqualsPresentation") && lastret("(time.Time).Before") && !lastret("(net/netip.Prefix).IsValid")
+//@   assert at call internal/cache.KeyWire#1: arg0 == name && arg1 == qtype && arg2 == qclass && arg3 == cd
+//@   assert at call internal/cache.WireNameEqualsPresentation#1: arg0 == name && entry.kind == FailureKindQuestion && entry.question.Question.Qtype == qtype && entry.question.Question.Qclass == qclass && entry.question.CD == cd && arg1 == entry.question.Question.Name
+//@   assert at return#1: !result1
+//@
+//@ func (*FailureCache).LookupWire$1
+//@   abstract
+//@   nosafety all pre
+//@   assert at call internal/cache.KeyWire#1: arg0 == zone && arg1 == dns.TypeSOA && arg2 == qclass && !arg3
+//@   assert at call internal/cache.WireNameEqualsPresentation#1: arg0 == zone
+//@   assert at call internal/cache.WireNameEqualsPresentation#1: arg1 == entry.zone.Zone
+//@   assert at call internal/cache.WireNameEqualsPresentation#1: entry.kind == FailureKindZone && entry.zone.Qclass == qclass && lastret("(*middleware/cache.FailureCache).loadEntry", 1)
+//@   assert at return#3: !result && lastret("internal/cache.WireNameEqualsPresentation") && lastret("(time.Time).Before")
+//@
+//@ # recording a failure: the entry carries the normalised key it is filed under and the kind of its table
+//@ func (*FailureCache).RecordQuestion
+//@   abstract
+//@   nosafety all pre
+//@   assert at call (*middleware/cache.FailureCache).record#1: arg1 == lastret("middleware/cache.failureQuestionHash") && arg2.kind == FailureKindQuestion && arg2.question == lastret("middleware/cache.normalizeFailureQuestionKey") && arg2.provenance == provenance
+//@   assert at call middleware/cache.failureQuestionHash#1: arg0 == lastret("middleware/cache.normalizeFailureQuestionKey")
+//@   assert at call middleware/cache.normalizeFailureQuestionKey#1: arg0 == entry_key
+//@
+//@ func (*FailureCache).RecordZone
+//@   abstract
+//@   nosafety all pre
+//@   assert at call (*middleware/cache.FailureCache).record#1: arg1 == lastret("middleware/cache.failureZoneHash") && arg2.kind == FailureKindZone && arg2.zone == lastret("middleware/cache.normalizeFailureZoneKey") && arg2.provenance == provenance
+//@   assert at call middleware/cache.failureZoneHash#1: arg0 == lastret("middleware/cache.normalizeFailureZoneKey")
